@@ -7,6 +7,7 @@ import tempfile
 from concurrent.futures import ThreadPoolExecutor
 
 from lib import common as C
+from lib import c07script
 
 PROP = "C07"
 LEVEL = "proof"
@@ -332,6 +333,31 @@ def module_histories():
     return out
 
 
+def judge_script(h, expect, line):
+    """new-VM oracle + the generator's account of the globals on one script-global history; returns (violation or None, judged)"""
+    parts = [p.split("|") for p in line.split(";")] if line else []
+    if len(parts) != len(h["items"]) or any(len(p) != 4 for p in parts):
+        return {"why": "the harness gave no (complete) answer for this history: %r" % line[:200]}, 0
+    judged = 0
+    for k, ((shared, g, fresh, fg), (ev, eg)) in enumerate(zip(parts, expect)):
+        if "TIMEOUT" in shared or "TIMEOUT" in fresh or "HARNESS" in fresh:
+            return None, judged          # a wall-clock bound: not an observation
+        judged += 1
+        it = h["items"][k]
+        what = "Run of piece %d" % k if it["api"] == "RN" else "Call of %s" % it["fn"]
+        known = ",".join(x for x in g.split(",") if not x.endswith("=?"))
+        why = None
+        if shared != fresh or g != fg:
+            why = "invocation %d (%s) on the reused VM gave %s (globals %s); a new VM given the same globals and definitions gives %s (globals %s)" % (
+                k, what, shared, g, fresh, fg)
+        elif (ev == "E" and not shared.startswith("E")) or (ev != "E" and shared != ev) or known != eg:
+            why = "invocation %d (%s) on the reused VM gave %s (globals %s); the current values of the globals make it %s (globals %s)" % (
+                k, what, shared, g, "an error" if ev == "E" else ev, eg)
+        if why:
+            return {"k": k, "shared": shared, "g_shared": g, "fresh": fresh, "g_fresh": fg, "expected": ev, "g_expected": eg, "why": why}, judged
+    return None, judged
+
+
 def enumerate_pairs(rng):
     """every (kind, api) followed by every (kind, api), with the first context cancelled after its run,
     inside the second run, or not at all"""
@@ -559,6 +585,32 @@ def _body(res, tier, obs, model, work, proved):
                                     "why": "invocation %d on the reused VM gave %s (global %s); a new VM gives %s (global %s)" % (k, shared, g, fresh, fg)})
                 break
     cov["module_histories"] = {"histories": len(mhs), "invocations": module_evals}
+    # histories over script-level globals (REPL protocol Run + Call): code objects of every kind loaded by an earlier
+    # invocation must see the current globals; judged by the new-VM oracle and by the generator's own account of the globals
+    nscript = 700 if tier == "quick" else 30000
+    shs = [c07script.gen_history("g%d" % i, rng) for i in range(nscript)]
+    simpl, serrs = run_sharded(obs, [json.dumps(h[0]) for h in shs], work, "script")
+    redo = [h for h in shs if "TIMEOUT" in simpl.get(h[0]["id"], "")]
+    for h in redo[:100]:
+        rc2, o2, e2 = C.run([obs], input=(json.dumps(h[0]) + "\n").encode(), timeout=300)
+        for line in o2.splitlines():
+            hid, _, rest = line.partition("\t")
+            if hid == h[0]["id"]:
+                simpl[hid] = rest
+    script_evals = 0
+    script_reuse = set()
+    for h, expect, tags in shs:
+        bad, judged = judge_script(h, expect, simpl.get(h["id"], ""))
+        script_evals += judged
+        script_reuse.update(t for t in tags if t.startswith("reuse"))
+        if bad:
+            bad["history"] = h
+            module_viol.append(bad)
+    if serrs:
+        res.violation({"property": PROP, "kind": "harness-run-failed", "stage": "script-global histories", "impl_errors": serrs[:3]}, nofail=True, tag="run")
+        return
+    cov["script_global_histories"] = {"histories": len(shs), "invocations": script_evals, "rerun_after_timeout": len(redo),
+                                      "kinds_of_code_object_reused_after_an_earlier_invocation": sorted(script_reuse)}
     if ierrs or merrs or len(impl) != len(hs) or len(mod) != len(hs):
         res.violation({"property": PROP, "kind": "harness-run-failed", "impl_errors": ierrs[:3], "model_errors": merrs[:3],
                        "impl_lines": len(impl), "model_lines": len(mod), "expected": len(hs)}, nofail=True, tag="run")
@@ -629,7 +681,7 @@ def _body(res, tier, obs, model, work, proved):
     for cfgname in ("pinned", "nopush", "nodrop", "norunip", "nomods"):
         r, e = run_sharded(model, wl, work, "w_" + cfgname, (cfgname,))
         pre[cfgname] = {k: _short(v) for k, v in r.items()}
-    cov["evaluations"] = evals
+    cov["evaluations"] = evals + cov.get("script_global_histories", {}).get("invocations", 0)
     cov["distinct_nontrivial"] = len(nontrivial)
     cov["rule"] = ("histories on ONE shared VM through vm.New/NewEmpty, RunCode, Run (REPL protocol), Call: the 6 witness histories of "
                    "props/C07.v; every (kind,api) x (kind,api) pair x {first context never cancelled, cancelled after its run, "
@@ -638,7 +690,11 @@ def _body(res, tier, obs, model, work, proved):
                    "exhaustion, spin until cancelled} with or without a leading `import math` of a module global, contexts shared or not, earlier contexts cancelled between runs / inside a "
                    "later run's host builtin / while a later run spins, own context cancelled before or during the run. Each "
                    "invocation is also run on a VM created for it (same global, own-context events only) = oracle; the extracted "
-                   "model predicts outcome and global of every invocation. Non-trivial = distinct (tag sequence, position) with an "
+                   "model predicts outcome and global of every invocation. Script-global histories (REPL protocol Run + Call): top-level functions, literals nested "
+                   "1-3 deep in factories, captured-variable closures, callbacks, deferred / named inner / recursive functions, functions held in maps "
+                   "and lists, run directly, through try, on threads and by the host's Call, read and write int globals that other invocations assign, "
+                   "declare or leave half-changed by a failing piece; each invocation is repeated on a new VM that runs everything earlier as one "
+                   "program in one Run, and its result and the globals must also equal the generator's own account. Non-trivial = distinct (tag sequence, position) with an "
                    "earlier abnormal end or a stale cancellation in play." % (len(enumerate_pairs(C.Rng(1))), max(nrand)))
     cov["samples"] = samples
     cov["correspondence"] = {"invocations": evals, "differences": len(corr_diffs),                              "settle_timeouts": settle_to,
@@ -703,6 +759,11 @@ def replay(data):
     if not h:
         print("no history in the replay file")
         return 0
+    if h.get("mode") == "script":
+        for k, it in enumerate(h["items"]):
+            print("--- invocation %d: %s" % (k, "Run of the piece" if it["api"] == "RN" else "Call %s%s" % (it["fn"], tuple(it.get("args") or ()))))
+            if it["api"] == "RN":
+                print(it["src"])
     rc, o, e = C.run([obs], input=(json.dumps(h) + "\n").encode(), timeout=120)
     print("implementation now: " + o.strip())
     bad = [p for p in o.strip().split("\t")[-1].split(";") if len(p.split("|")) == 4 and (p.split("|")[0] != p.split("|")[2] or p.split("|")[1] != p.split("|")[3])]
